@@ -39,6 +39,13 @@ func table(t int) (isMSM4, isMSM7 bool, constellation string) {
 	return false, false, ""
 }
 
+func titleOf(tc *utils.TitleAndComment) string {
+	if tc == nil {
+		return "<nil>"
+	}
+	return tc.Title
+}
+
 func norm(s string) string {
 	var b strings.Builder
 	for _, r := range strings.ToLower(s) {
@@ -86,6 +93,12 @@ func check(c Case, o *stats.Obs) error {
 	tc := utils.GetTitleAndComment(t)
 	if tc == nil || tc.Title == "" {
 		return fmt.Errorf("utils.GetTitleAndComment(%d) has no title", t)
+	}
+	title := tc.Title
+	for rep := 2; rep <= 3; rep++ { // the answer must not depend on having been asked before
+		if again := utils.GetTitleAndComment(t); again == nil || again.Title != title {
+			return fmt.Errorf("utils.GetTitleAndComment(%d), asked for the %d. time, gives title %q; the first answer was %q", t, rep, titleOf(again), title)
+		}
 	}
 	if t < 0 {
 		m := handler.NewNonRTCM([]byte("junk"))
@@ -135,8 +148,29 @@ func check(c Case, o *stats.Obs) error {
 		if !(w4 || w7 || t == 1005 || t == 1006) && !isStr {
 			return fmt.Errorf("type %d: after Analyse Readable is %T, want a plain string for a type that is not decoded", t, m.Readable)
 		}
-		if m.String() == "" {
-			return fmt.Errorf("String() of type %d is empty", t)
+		if txt := m.String(); txt == "" || !strings.Contains(txt, title) {
+			return fmt.Errorf("String() of type %d does not show its title %q: %q", t, title, txt)
+		}
+		// The lazy path (PrepareForDisplay / String on a message that has not been analysed) must
+		// attempt full decoding for exactly the same types.
+		m2, _ := drive.NewHandler(lv).GetMessage(append([]byte{}, frame...))
+		if m2 == nil {
+			return fmt.Errorf("GetMessage returned nil for a valid frame of type %d", t)
+		}
+		handler.PrepareForDisplay(m2)
+		_, l4 := m2.Readable.(*msm4.Message)
+		_, l7 := m2.Readable.(*msm7.Message)
+		_, l1005 := m2.Readable.(*type1005.Message)
+		_, l1006 := m2.Readable.(*type1006.Message)
+		if l4 != w4 || l7 != w7 || l1005 != (t == 1005) || l1006 != (t == 1006) {
+			return fmt.Errorf("type %d: after PrepareForDisplay Readable is %T (error %q); want MSM4=%v MSM7=%v 1005=%v 1006=%v", t, m2.Readable, m2.ErrorMessage, w4, w7, t == 1005, t == 1006)
+		}
+		m3, _ := drive.NewHandler(lv).GetMessage(append([]byte{}, frame...))
+		_ = m3.String()
+		_, s4 := m3.Readable.(*msm4.Message)
+		_, s7 := m3.Readable.(*msm7.Message)
+		if s4 != w4 || s7 != w7 {
+			return fmt.Errorf("type %d: after String() Readable is %T (error %q); want MSM4=%v MSM7=%v", t, m3.Readable, m3.ErrorMessage, w4, w7)
 		}
 	}
 	_, _, herr := header.GetMSMHeader(frame, slog.LevelInfo)
